@@ -23,6 +23,25 @@ def _load(name):
 
 
 def run_impl(ck, binary, cases, timeout=900):
+    """run cases through the engine (see run_impl_once) and re-run a shuffled sample of them in a second
+    process: an observation that depends on which calls came before it (state kept between calls) differs
+    between the two runs and is reported"""
+    outs = run_impl_once(ck, binary, cases, timeout)
+    if len(outs) == len(cases) and len(cases) > 20 and not ck.replay:
+        idx = list(range(len(cases)))
+        ck.rng.shuffle(idx)
+        idx = [i for i in idx if cases[i].get("k") not in ("ftext", "fcanon")][:400]
+        again = run_impl_once(ck, binary, [cases[i] for i in idx], timeout)
+        if len(again) == len(idx):
+            for i, o2 in zip(idx, again):
+                if json.dumps(outs[i], sort_keys=True) != json.dumps(o2, sort_keys=True):
+                    ck.violation("history-dependent:%s" % cases[i].get("k"),
+                                 {"part": "history", "case": cases[i], "impl_out": outs[i], "impl_out_second_run": o2,
+                                  "clause": "the same call gives a different result depending on the calls made before it"})
+    return outs
+
+
+def run_impl_once(ck, binary, cases, timeout=900):
     """run cases through the engine; restart after a hang/crash and attribute it to the case"""
     outs = []
     i = 0
